@@ -91,7 +91,7 @@ func docFrom(s string) *sbom.Document {
 
 var hostileIDs = []string{
 	"doc1", "doc1 ", "Doc1", "doc2", "../x", "../../etc/passwd", "/abs/path", "a/b", ".", "..", "id\x00nul", "line\nbreak",
-	"ünï-名前", "https://example.com/sbom#DOC", "urn:uuid:3e671687-395b-41f5-a30f-a58921a69b79", "%2e%2e%2f", "con", "a\\b", "*", "~", "-rf",
+	"ünï-名前", "caf\u00e9", "cafe\u0301", "https://example.com/sbom#DOC", "urn:uuid:3e671687-395b-41f5-a30f-a58921a69b79", "%2e%2e%2f", "con", "a\\b", "*", "~", "-rf",
 }
 
 func longID(r *rand.Rand) string {
